@@ -803,6 +803,13 @@ def replay(ctx, data) -> int:
         print("replay file has no op sequence (proof/tie breakage without failing input):", data.get("broken"))
         return 1
     real = seqcheck.exec_real(Real, case)
+    floaty = any("." in t for t in case[0].split() if not t.startswith(("cls=", "syn=")))
+    if floaty:      # non-representable stream: real code only (setter-built vs fresh), the Lean driver is not involved
+        for l, r in zip(case, real):
+            print(f"{l}\n    real: setter-built {r[0]}\n          fresh        {r[1]}\n          relational   {r[2] if len(r) > 2 else []}")
+        d = compare_relational(case, real)
+        print("DISAGREEMENT" if d else "agrees", d or "")
+        return 1 if d else 0
     resp = ctx.run_driver(DRIVER, case)
     for l, r, d in zip(case, real, resp):
         print(f"{l}\n    real: setter-built {r[0]}\n          fresh        {r[1]}\n          relational   {r[2] if len(r) > 2 else []}\n    lean: {d}")
